@@ -131,24 +131,34 @@ fn tracker_probe(path: &str) {
   });
 }
 
-fn checkers_probe() {
+fn checker_family<T, E>(outs: Vec<(String, Result<T, E>)>)
+  where T: Clone + Eq + std::fmt::Debug + 'static, E: Clone + Eq + std::fmt::Debug + 'static {
   use pie::task::{ErrEqualsChecker, OkEqualsChecker, ResultChecker};
   use pie::OutputChecker;
-  type O = Result<u8, u8>;
-  let mut outs: Vec<(String, O)> = Vec::new();
-  for v in 0..3u8 { outs.push((format!("O{}", v), Ok(v))); }
-  for v in 0..3u8 { outs.push((format!("E{}", v), Err(v))); }
-  println!("C 0");
   for (n1, o1) in &outs {
     for (n2, o2) in &outs {
-      let r0 = <EqualsChecker as OutputChecker<O>>::check(&EqualsChecker, o1, &<EqualsChecker as OutputChecker<O>>::stamp(&EqualsChecker, o2)).is_some();
-      let r1 = OkEqualsChecker.check(o1, &<OkEqualsChecker as OutputChecker<O>>::stamp(&OkEqualsChecker, o2)).is_some();
-      let r2 = ErrEqualsChecker.check(o1, &<ErrEqualsChecker as OutputChecker<O>>::stamp(&ErrEqualsChecker, o2)).is_some();
-      let r3 = ResultChecker.check(o1, &<ResultChecker as OutputChecker<O>>::stamp(&ResultChecker, o2)).is_some();
-      let r4 = <AlwaysConsistent as OutputChecker<O>>::check(&AlwaysConsistent, o1, &<AlwaysConsistent as OutputChecker<O>>::stamp(&AlwaysConsistent, o2)).is_some();
+      let r0 = <EqualsChecker as OutputChecker<Result<T, E>>>::check(&EqualsChecker, o1, &<EqualsChecker as OutputChecker<Result<T, E>>>::stamp(&EqualsChecker, o2)).is_some();
+      let r1 = OkEqualsChecker.check(o1, &<OkEqualsChecker as OutputChecker<Result<T, E>>>::stamp(&OkEqualsChecker, o2)).is_some();
+      let r2 = ErrEqualsChecker.check(o1, &<ErrEqualsChecker as OutputChecker<Result<T, E>>>::stamp(&ErrEqualsChecker, o2)).is_some();
+      let r3 = ResultChecker.check(o1, &<ResultChecker as OutputChecker<Result<T, E>>>::stamp(&ResultChecker, o2)).is_some();
+      let r4 = <AlwaysConsistent as OutputChecker<Result<T, E>>>::check(&AlwaysConsistent, o1, &<AlwaysConsistent as OutputChecker<Result<T, E>>>::stamp(&AlwaysConsistent, o2)).is_some();
       println!("k {} {} {}{}{}{}{}", n1, n2, b(r0), b(r1), b(r2), b(r3), b(r4));
     }
   }
+}
+
+fn checkers_probe() {
+  use pie::OutputChecker;
+  println!("C 0");
+  // payload families: small integers, unit (zero-sized) on either or both sides, heap-allocated strings
+  let mut outs: Vec<(String, Result<u8, u8>)> = Vec::new();
+  for v in 0..3u8 { outs.push((format!("O{}", v), Ok(v))); }
+  for v in 0..3u8 { outs.push((format!("E{}", v), Err(v))); }
+  checker_family(outs);
+  checker_family::<(), u8>(vec![("Ou".into(), Ok(())), ("E0".into(), Err(0)), ("E1".into(), Err(1))]);
+  checker_family::<u8, ()>(vec![("O0".into(), Ok(0)), ("O1".into(), Ok(1)), ("Eu".into(), Err(()))]);
+  checker_family::<(), ()>(vec![("Ou".into(), Ok(())), ("Eu".into(), Err(()))]);
+  checker_family::<String, String>(vec![("Oa".into(), Ok("a".to_string())), ("Ob".into(), Ok("b".to_string())), ("Ea".into(), Err("a".to_string())), ("Eb".into(), Err("b".to_string()))]);
   // EqualsChecker / AlwaysConsistent on a non-Result output type
   for a in 0..4i64 {
     for c in 0..4i64 {
@@ -177,7 +187,7 @@ mod mapprobe {
   use std::collections::hash_map::Entry;
   use std::collections::HashMap;
   use std::io::Write as _;
-  use pie::resource::map::{GetGlobalMap, MapEqualsChecker, MapKey};
+  use pie::resource::map::{GetGlobalMap, MapEqualsChecker, MapKey, MapKeyObjToObj, MapKeyToObj, MapValueObj};
   use pie::{Pie, Resource, ResourceChecker, ResourceState};
   use verif_harness::dsl::Toks;
   use verif_harness::for_each_case;
@@ -258,6 +268,38 @@ mod mapprobe {
   }
   macro_rules! by_key { ($kt:expr, $f:ident, $($a:expr),*) => { match $kt { 1 => $f::<K1>($($a),*), 2 => $f::<K2>($($a),*), _ => $f::<K3>($($a),*) } } }
 
+  // ---- the object-valued maps (values Box<dyn MapValueObj>, compared through EqObj::eq_any): values of different concrete
+  // types with equal fields, and zero-sized values / keys of different types.  A value is the code  type*100 + payload.
+  #[derive(Clone, PartialEq, Eq)] pub struct VI(pub i64);
+  #[derive(Clone, PartialEq, Eq)] pub struct VU(pub i64);
+  #[derive(Clone, PartialEq, Eq)] pub struct ZA;
+  #[derive(Clone, PartialEq, Eq)] pub struct ZB;
+  impl std::fmt::Debug for VI { fn fmt(&self, f: &mut std::fmt::Formatter<'_>) -> std::fmt::Result { write!(f, "{}", self.0) } }
+  impl std::fmt::Debug for VU { fn fmt(&self, f: &mut std::fmt::Formatter<'_>) -> std::fmt::Result { write!(f, "{}", 100 + self.0) } }
+  impl std::fmt::Debug for ZA { fn fmt(&self, f: &mut std::fmt::Formatter<'_>) -> std::fmt::Result { write!(f, "200") } }
+  impl std::fmt::Debug for ZB { fn fmt(&self, f: &mut std::fmt::Formatter<'_>) -> std::fmt::Result { write!(f, "300") } }
+  fn mkval(code: i64) -> Box<dyn MapValueObj> { match code / 100 { 0 => Box::new(VI(code)), 1 => Box::new(VU(code - 100)), 2 => Box::new(ZA), _ => Box::new(ZB) } }
+  fn code(v: &Box<dyn MapValueObj>) -> i64 { format!("{:?}", v).parse().unwrap() }
+  #[derive(Clone, PartialEq, Eq, Hash, Debug)] pub struct UA;
+  #[derive(Clone, PartialEq, Eq, Hash, Debug)] pub struct UB;
+  #[derive(Clone, PartialEq, Eq, Hash, Debug)] pub struct KX(pub u32);
+  fn okey5(k: u32) -> MapKeyObjToObj { match k { 0 => MapKeyObjToObj::from(UA), 1 => MapKeyObjToObj::from(UB), _ => MapKeyObjToObj::from(KX(k)) } }
+  type OV = Box<dyn MapValueObj>;
+  fn read_o<K: MapKey<Value = OV>>(pie: &mut Pie<()>, key: K) -> Option<i64> { key.read(pie.resource_state_mut::<K>()).unwrap().map(code) }
+  fn insert_o<K: MapKey<Value = OV> + Clone>(pie: &mut Pie<()>, key: K, v: i64) { let mut w = key.write(pie.resource_state_mut::<K>()).unwrap(); w.insert(mkval(v)); }
+  fn remove_o<K: MapKey<Value = OV> + Clone>(pie: &mut Pie<()>, key: K) { let mut w = key.write(pie.resource_state_mut::<K>()).unwrap(); if let Entry::Occupied(e) = w.entry() { e.remove(); } }
+  fn direct_o<K: MapKey<Value = OV>>(pie: &mut Pie<()>, key: K, v: i64) { pie.resource_state_mut::<K>().get_global_map_mut().insert(key, mkval(v)); }
+  fn stamps_o<K: MapKey<Value = OV>>(pie: &mut Pie<()>, key: K) -> (Option<OV>, Option<i64>, Option<i64>) {
+    let s1 = MapEqualsChecker.stamp(&key, pie.resource_state_mut::<K>()).unwrap();
+    let s2 = { let mut rd = key.read(pie.resource_state_mut::<K>()).unwrap(); MapEqualsChecker.stamp_reader(&key, &mut rd).unwrap() };
+    let s3 = { let w = key.write(pie.resource_state_mut::<K>()).unwrap(); MapEqualsChecker.stamp_writer(&key, w).unwrap() };
+    (s1, s2.as_ref().map(code), s3.as_ref().map(code))
+  }
+  fn check_o<K: MapKey<Value = OV>>(pie: &mut Pie<()>, key: K, st: &Option<OV>) -> bool {
+    let r = MapEqualsChecker.check(&key, pie.resource_state_mut::<K>(), st).unwrap().is_some();
+    r
+  }
+
   pub fn run(path: &str) {
     let out = std::io::stdout();
     let mut out = std::io::BufWriter::new(out.lock());
@@ -265,6 +307,7 @@ mod mapprobe {
       writeln!(out, "C {}", idx).unwrap();
       let mut pie: Pie<()> = Pie::default();
       let mut slots: HashMap<u32, (u32, u32, Option<i64>)> = HashMap::new();
+      let mut oslots: HashMap<u32, (u32, u32, Option<OV>)> = HashMap::new();
       let mut t = Toks { t: &toks, i: 0 };
       while t.peek().is_some() {
         match t.next() {
@@ -276,19 +319,36 @@ mod mapprobe {
           "B" => { let r: u32 = t.num(); let s: u32 = t.num(); writeln!(out, "g {}", by_res!(r, s, get_boxed_mut, &mut pie)).unwrap(); }
           "D" => { let r: u32 = t.num(); let s: u32 = t.num(); writeln!(out, "d {}", by_res!(r, s, default_mut, &mut pie)).unwrap(); }
           "d" => { let r: u32 = t.num(); let s: u32 = t.num(); writeln!(out, "d {}", by_res!(r, s, default, &mut pie)).unwrap(); }
-          "r" => { let kt: u32 = t.num(); let k: u32 = t.num(); writeln!(out, "r {}", o(by_key!(kt, read, &mut pie, k))).unwrap(); }
-          "w" => { let kt: u32 = t.num(); let k: u32 = t.num(); let v: i64 = t.num(); by_key!(kt, insert, &mut pie, k, v); writeln!(out, "u").unwrap(); }
-          "x" => { let kt: u32 = t.num(); let k: u32 = t.num(); by_key!(kt, remove, &mut pie, k); writeln!(out, "u").unwrap(); }
-          "i" => { let kt: u32 = t.num(); let k: u32 = t.num(); let v: i64 = t.num(); by_key!(kt, direct, &mut pie, k, v); writeln!(out, "u").unwrap(); }
+          "r" => { let kt: u32 = t.num(); let k: u32 = t.num();
+                   let v = if kt >= 4 { if kt == 4 { read_o(&mut pie, MapKeyToObj(k)) } else { read_o(&mut pie, okey5(k)) } } else { by_key!(kt, read, &mut pie, k) };
+                   writeln!(out, "r {}", o(v)).unwrap(); }
+          "w" => { let kt: u32 = t.num(); let k: u32 = t.num(); let v: i64 = t.num();
+                   if kt == 4 { insert_o(&mut pie, MapKeyToObj(k), v) } else if kt >= 5 { insert_o(&mut pie, okey5(k), v) } else { by_key!(kt, insert, &mut pie, k, v) }
+                   writeln!(out, "u").unwrap(); }
+          "x" => { let kt: u32 = t.num(); let k: u32 = t.num();
+                   if kt == 4 { remove_o(&mut pie, MapKeyToObj(k)) } else if kt >= 5 { remove_o(&mut pie, okey5(k)) } else { by_key!(kt, remove, &mut pie, k) }
+                   writeln!(out, "u").unwrap(); }
+          "i" => { let kt: u32 = t.num(); let k: u32 = t.num(); let v: i64 = t.num();
+                   if kt == 4 { direct_o(&mut pie, MapKeyToObj(k), v) } else if kt >= 5 { direct_o(&mut pie, okey5(k), v) } else { by_key!(kt, direct, &mut pie, k, v) }
+                   writeln!(out, "u").unwrap(); }
           "t" => { let slot: u32 = t.num(); let kt: u32 = t.num(); let k: u32 = t.num();
-                   let (s1, s2, s3) = by_key!(kt, stamps, &mut pie, k);
-                   slots.insert(slot, (kt, k, s1));
-                   writeln!(out, "t {} {} {}", o(s1), o(s2), o(s3)).unwrap(); }
+                   if kt >= 4 {
+                     let (s1, s2, s3) = if kt == 4 { stamps_o(&mut pie, MapKeyToObj(k)) } else { stamps_o(&mut pie, okey5(k)) };
+                     writeln!(out, "t {} {} {}", o(s1.as_ref().map(code)), o(s2), o(s3)).unwrap();
+                     slots.remove(&slot); oslots.insert(slot, (kt, k, s1));
+                   } else {
+                     let (s1, s2, s3) = by_key!(kt, stamps, &mut pie, k);
+                     oslots.remove(&slot); slots.insert(slot, (kt, k, s1));
+                     writeln!(out, "t {} {} {}", o(s1), o(s2), o(s3)).unwrap();
+                   } }
           "c" => { let slot: u32 = t.num();
-                   match slots.get(&slot).cloned() {
+                   if let Some((kt, k, st)) = oslots.get(&slot).cloned() {
+                     let inc = if kt == 4 { check_o(&mut pie, MapKeyToObj(k), &st) } else { check_o(&mut pie, okey5(k), &st) };
+                     writeln!(out, "c {}", if inc { 1 } else { 0 }).unwrap();
+                   } else { match slots.get(&slot).cloned() {
                      None => writeln!(out, "c none").unwrap(),
                      Some((kt, k, st)) => { let inc = by_key!(kt, check, &mut pie, k, &st); writeln!(out, "c {}", if inc { 1 } else { 0 }).unwrap(); }
-                   } }
+                   } } }
           x => panic!("bad map op {}", x),
         }
       }
